@@ -292,25 +292,54 @@ Definition tunnelled (k : kind) (stream reply : str) : bool :=
   | _ => true
   end.
 
-(* required deliveries: see Check/C09.v for the reading of each clause *)
+(* required deliveries.  [sup] = what a transparent tunnel hands to the upstream.
+   [early]: the upstream's output does not depend on the client's end; [all_before]: the upstream
+   has everything before it sends / closes; [safe]: an upstream close cannot cut client bytes
+   that are still on their way (then nothing is demanded beyond prefixes: a peer that closes
+   while data is in flight resets the connection).
+   - the client's stream must arrive completely whenever [safe];
+   - the reply must arrive completely whenever [safe] and: the client stays and the upstream
+     sends; or the client half-closes (it keeps reading) and the upstream sends early or at the
+     EOF which the half-close is (a client that first waits for a reply which is only sent at
+     its EOF never half-closes: nothing demanded); or the client closes after waiting for it. *)
+Definition spec_early (U : N) (ut : utrig) : bool :=
+  match ut with UAtConnect => true | UAfterBytes n => n <=? U | UOnEOF => false end.
+Definition spec_safe (U : N) (ut : utrig) (ue : uend) : bool :=
+  let all_before := match ut with UAtConnect => U =? 0 | UAfterBytes n => n =? U | UOnEOF => true end in
+  match ue with UStay => true | UClose => all_before || negb (spec_early U ut) end.
+Definition spec_req_up (U : N) (ut : utrig) (ue : uend) : bool := spec_safe U ut ue.
+Definition spec_req_cl (U : N) (cwait : bool) (ce : cend) (ut : utrig) (ue : uend) : bool :=
+  spec_safe U ut ue &&
+  match ce with
+  | CStay => spec_early U ut
+  | CHalf => spec_early U ut || match ut with UOnEOF => negb cwait | _ => false end
+  | CClose => cwait && spec_early U ut
+  end.
+
+Definition spec_core (sup reply : str) (cwait : bool) (ce : cend) (ut : utrig) (ue : uend) (o_up o_cl : str) : bool :=
+  let U := nlen' sup in
+  is_prefix o_up sup && is_prefix o_cl reply
+  && (if spec_req_up U ut ue then beq o_up sup else true)
+  && (if spec_req_cl U cwait ce ut ue then beq o_cl reply else true).
+
 Definition spec_b (k : kind) (pp : bool) (line stream : str) (cwait : bool) (ce : cend) (ut : utrig)
     (reply : str) (ue : uend) (o_up o_cl : str) : bool :=
-  if negb (tunnelled k stream reply) then true else
-  let sup := spec_upstream k pp line stream in
-  let U := nlen' sup in
-  let early := match ut with UAtConnect => true | UAfterBytes n => n <=? U | UOnEOF => false end in
-  let all_before := match ut with UAtConnect => U =? 0 | UAfterBytes n => n =? U | UOnEOF => true end in
-  let safe := match ue with UStay => true | UClose => all_before || negb early end in
-  let req_up := safe in
-  let req_cl :=
-    safe && match ce with
-            | CStay => early
-            | CHalf => early || match ut with UOnEOF => true | _ => false end
-            | CClose => cwait && early
-            end in
-  is_prefix o_up sup && is_prefix o_cl reply
-  && (if req_up then beq o_up sup else true)
-  && (if req_cl then beq o_cl reply else true).
+  if negb (tunnelled k stream reply) then true
+  else spec_core (spec_upstream k pp line stream) reply cwait ce ut ue o_up o_cl.
+
+(* an observation lies within an expectation: a prefix of the full stream with a length in [lo, hi] *)
+Definition within (obs full : str) (lo hi : N) : bool :=
+  is_prefix obs full && (lo <=? nlen' obs) && (nlen' obs <=? hi).
+
+(* the one scenario family in which the kernel decides whether the FINISHER's own bytes survive:
+   the client closes without waiting while reply bytes may still be unread in the proxy's
+   upstream socket; the close then resets that connection (see F-C09-2 for the half-closing
+   variant, which is a finding region).  Not generated by the correspondence run. *)
+Definition race_close_unread_reply (up : str) (cwait : bool) (ce : cend) (ut : utrig) : bool :=
+  match ce with
+  | CClose => negb cwait && match ut with UAtConnect => true | UAfterBytes n => n <=? nlen' up | UOnEOF => false end
+  | _ => false
+  end.
 
 (* ---------- the finding regions ---------- *)
 (* F-C09-1 (bytes stuck in the bufio.Reader) was repaired by c17abb6: no region *)
